@@ -123,9 +123,11 @@ func vReaders() []vReader {
 }
 
 func TestVerif_C14(t *testing.T) {
-	res := kit.NewResult("one case = one (writer run, reading command, i<=j) triple: the reader's first listing sees the storage after writer operation i, everything later the storage after operation j; the reader must succeed; reader traces are checked against RepoTrace.tla ReaderOrder and writer traces against the write-ordering rules; distinct by (scenario seed, reader, i, j)")
+	res := kit.NewResult("one case = one (writer run, reading command, i<=j) triple: the reader's first listing sees the storage after writer operation i, everything later the storage after operation j; or one (writer run, mount, tick schedule): the mount code (open+LoadIndex, NewRoot, first ReadDirAll, browsing ids/ and snapshots/ through the fuse handlers, a pause beyond the reload interval, browsing again) sees at every tick (step boundary, snapshot/index listing) the storage after the scheduled writer operation; the reader must succeed and every snapshot the mountpoint shows must be readable (Fn_MountView.tla); reader traces are checked against RepoTrace.tla ReaderOrder and writer traces against the write-ordering rules; distinct by (scenario seed, reader, i, j | schedule)")
 	tr := kit.NewNDJSON("trace.ndjson")
 	defer tr.Close()
+	recs := kit.NewNDJSON("recs_mount.ndjson")
+	defer recs.Close()
 	ns := kit.Pick(2, 12)
 	pairsPer := kit.Pick(5, 60)
 	rng := kit.Rand(14)
@@ -215,7 +217,10 @@ func TestVerif_C14(t *testing.T) {
 					vWriteTrace(tr, re.trace(true))
 				}
 			}
-			res.Sample(map[string]any{"scenario": s.Seed, "writer_points": len(points), "readers": len(vReaders()), "pairs_per_reader": pairsPer})
+			// the long-running reader: mount at handler level under tick schedules
+			w := vc14NewWriter(e, s.Seed, ops, points)
+			vc14MountRuns(t, res, tr, recs, w, rng, kit.Pick(6, 40))
+			res.Sample(map[string]any{"scenario": s.Seed, "writer_points": len(points), "readers": len(vReaders()), "pairs_per_reader": pairsPer, "writer_backups_seen_by_mount": len(w.snapPts)})
 		}()
 	}
 	_ = data.NodeTypeFile
